@@ -326,7 +326,7 @@ def run_check(module, tier, seed, nshards=16):
     _MODULE = module
     tasks = []
     for part in module.PARTS:
-        total = part.examples.get(tier, 0)
+        total = int(part.examples.get(tier, 0) * float(os.environ.get('VERIF_SCALE', '1')))
         if part.strategy is not None and total <= 0:
             continue
         if part.strategy is not None:
